@@ -1917,6 +1917,9 @@ func genReplCase(g *gen, w *bufio.Writer, class string, big bool) {
 		replGenMixedOps(g, w, 3+g.intn(5), false)
 		fmt.Fprintln(w, "await b")
 	case "flaps": // the link drops several times, each time long enough for a few failed dials; the replica reconnects every time
+		// (the replica's back-off grows with the time it has spent in its error state: after three outages a reconnect can take
+		// more than ten seconds - slow, not stuck: the bound of this class is a minute)
+		bound = 60000
 		hdr("any", "proxy=1")
 		fmt.Fprintln(w, "join a")
 		replGenMixedOps(g, w, 10+g.intn(20), true)
